@@ -2252,12 +2252,21 @@ impl TieredEngine {
         );
 
         // Keep recent writes in hot tier to accelerate mixed hot/cold search merges.
-        let coherence = self
-            .cold_tier
-            .current_coherence_token(doc_id)
-            .ok_or_else(|| anyhow!("insert succeeded but cold tier has no canonical token"))?;
-        self.hot_tier
-            .insert_with_coherence(doc_id, embedding, metadata, coherence);
+        // The write is durable and was visible at this point. If the canonical record is gone
+        // again, a concurrent delete ordered itself after this insert: there is nothing to
+        // mirror, and reporting an error would disown a write that readers may have observed.
+        match self.cold_tier.current_coherence_token(doc_id) {
+            Some(coherence) => {
+                self.hot_tier
+                    .insert_with_coherence(doc_id, embedding, metadata, coherence);
+            }
+            None => {
+                debug!(
+                    doc_id,
+                    "insert: canonical record removed concurrently; skipping hot-tier mirror"
+                );
+            }
+        }
 
         let mut stats = self.stats.write();
         stats.total_inserts += 1;
